@@ -118,6 +118,16 @@ pub fn check_amplification(out: &Outcome, obs: &mut Obs) -> Result<Summary, Fail
         }
         targets.push((*a, t_valid, true));
     }
+    // hashes of the datagrams sent by connections of the server (not by the endpoint itself)
+    let conn_sent: std::collections::HashSet<u64> = out
+        .recs
+        .iter()
+        .filter(|r| r.ep == 0 && r.conn != u64::MAX)
+        .filter_map(|r| match &r.ev {
+            crate::rec::Ev::TxDatagram { hash, .. } => Some(*hash),
+            _ => None,
+        })
+        .collect();
     for (c, t_valid, migrated) in &targets {
         let (c, t_valid) = (c, *t_valid);
         if *migrated {
@@ -143,7 +153,7 @@ pub fn check_amplification(out: &Outcome, obs: &mut Obs) -> Result<Summary, Fail
             for r in out.recs.iter().filter(|r| r.ep == 0) {
                 match &r.ev {
                     crate::rec::Ev::RxDatagram { remote, len, .. } if remote == c => allowance += 3 * *len as u64,
-                    crate::rec::Ev::TxDatagram { remote, len, .. } if remote == c => {
+                    crate::rec::Ev::TxDatagram { remote, len, .. } if remote == c && r.conn != u64::MAX => {
                         if burst.0 != r.t_us {
                             burst = (r.t_us, allowance);
                         }
@@ -156,7 +166,10 @@ pub fn check_amplification(out: &Outcome, obs: &mut Obs) -> Result<Summary, Fail
             v
         };
         let mut k = 0usize;
-        for n in out.net.iter().filter(|n| n.src == server && n.dst == *c) {
+        // only what a *connection* sends is subject to this limit: once the server's connection is gone (idle timeout,
+        // close), packets from the client are answered by the endpoint with stateless resets, which have a rule of their
+        // own (smaller than the trigger, RFC 9000 10.3.3)
+        for n in out.net.iter().filter(|n| n.src == server && n.dst == *c && conn_sent.contains(&n.hash)) {
             if n.t_us >= t_valid {
                 break;
             }
